@@ -7,3 +7,5 @@ pub mod gen;
 
 #[cfg(kani)]
 mod c24;
+#[cfg(kani)]
+mod c01;
